@@ -5,7 +5,7 @@ package main
 // Case line:   <api> <tree in prefix notation>: <op> ; <op> ; ...
 //   api   g = generic constructors (MonadIOJustGenerics / MonadIONewGenerics, T = int)
 //         i = the interface{} methods (MonadIO.Just / MonadIO.New, T = interface{})
-//   tree  J c | V a | N id | W id | H id | FR t | FL c t b | FC c t b1 b2 | A x c b | O h t | S h t     (see Model/C11.lean)
+//   tree  J c | V a | N id | W id | H id | G id | JM id x | FR t | FL c t b | FC c t b1 b2 | A x c b | O h t | S h t     (see Model/C11.lean)
 //   ops   r <j> (make object j current; 0 = the value built from the tree) | D <j> <c> <tree> (object j := current.FlatMap(cont c, tree))
 //         sg (Subscribe with OnNext whose effect is held at the first G leaf it runs) | g- (open the gate)
 //         b (nothing) | e (Eval) | s (Subscribe with OnNext) | z (Subscribe without OnNext) | y (Cor.YieldFromIO)
@@ -70,6 +70,11 @@ func c11Parse(toks []string) (*c11Tree, []string, bool) {
 			return nil, nil, false
 		}
 		return t, toks, true
+	case "JM":
+		if t.a, ok = num(); !ok {
+			return nil, nil, false
+		}
+		return sub(1, t)
 	case "FR":
 		return sub(1, t)
 	case "FL":
@@ -105,7 +110,7 @@ func (t *c11Tree) String() string {
 	rec = func(t *c11Tree) {
 		b.WriteString(t.kind)
 		switch t.kind {
-		case "J", "V", "N", "W", "H", "G":
+		case "J", "V", "N", "W", "H", "G", "JM":
 			fmt.Fprintf(&b, " %d", t.a)
 		case "FL", "FC":
 			fmt.Fprintf(&b, " %d", t.c)
@@ -197,7 +202,11 @@ type c11API[T any] struct {
 	from   func(int) T
 	yield  func(*fpgo.MonadIODef[T]) T
 	onNext func(func(T)) fpgo.Subscription[T]
+	obj    func(*fpgo.MonadIODef[T]) (T, bool) // a MonadIO object as a VALUE (possible with T = interface{} only)
 }
+
+// MonadIO objects that travel as values in the current case -> their code (1000 + id); cases run one at a time
+var c11Objs sync.Map
 
 // the continuation of an FL / FC / A node (or of a derive op): logs its invocation, builds the body with the value bound
 func c11Kont[T any](e *c11Env, api *c11API[T], t *c11Tree) func(T) *fpgo.MonadIODef[T] {
@@ -253,6 +262,14 @@ func c11Build[T any](e *c11Env, api *c11API[T], t *c11Tree, v int) *fpgo.MonadIO
 			}
 			return api.from(r.TargetObject.V)
 		})
+	case "JM":
+		// Just(obj): the value is itself a MonadIO object (built here, never run); with T = int the code number stands in
+		x := c11Build(e, api, t.kids[0], v)
+		if val, ok := api.obj(x); ok {
+			c11Objs.Store(x, 1000+t.a)
+			return api.just(val)
+		}
+		return api.just(api.from(1000 + t.a))
 	case "FR":
 		return c11Build(e, api, t.kids[0], v).FlatMap(api.just)
 	case "FL", "FC":
@@ -270,6 +287,7 @@ func c11Build[T any](e *c11Env, api *c11API[T], t *c11Tree, v int) *fpgo.MonadIO
 }
 
 func c11RunCase[T any](api *c11API[T], t *c11Tree, ops []string, allowSame bool) string {
+	c11Objs.Range(func(k, _ interface{}) bool { c11Objs.Delete(k); return true })
 	sameUnbuffered := func(o, s int) bool { return !allowSame && o == s && (o == 1 || o == 2) }
 	e := &c11Env{names: map[int64]string{fpgo.VerifGoID(): "m"}}
 	e.h[1] = fpgo.Handler.New()
@@ -441,15 +459,26 @@ var c11Generic = &c11API[int]{
 	from:   func(x int) int { return x },
 	yield:  func(m *fpgo.MonadIODef[int]) int { return (&fpgo.CorDef[int]{}).YieldFromIO(m) },
 	onNext: func(f func(int)) fpgo.Subscription[int] { return fpgo.Subscription[int]{OnNext: f} },
+	obj:    func(*fpgo.MonadIODef[int]) (int, bool) { return 0, false },
 }
 
 var c11Iface = &c11API[interface{}]{
 	just:   fpgo.MonadIO.Just,
 	newf:   fpgo.MonadIO.New,
-	to:     func(x interface{}) int { v, _ := x.(int); return v },
+	to: func(x interface{}) int {
+		if m, ok := x.(*fpgo.MonadIODef[interface{}]); ok {
+			if code, ok := c11Objs.Load(m); ok {
+				return code.(int)
+			}
+			return -2
+		}
+		v, _ := x.(int)
+		return v
+	},
 	from:   func(x int) interface{} { return x },
 	yield:  func(m *fpgo.MonadIODef[interface{}]) interface{} { return (&fpgo.CorDef[interface{}]{}).YieldFromIO(m) },
 	onNext: func(f func(interface{})) fpgo.Subscription[interface{}] { return fpgo.Subscription[interface{}]{OnNext: f} },
+	obj:    func(m *fpgo.MonadIODef[interface{}]) (interface{}, bool) { return m, true },
 }
 
 func c11Run(line string) string {
@@ -523,7 +552,9 @@ func c11Trees(n int, memo map[int][]*c11Tree) []*c11Tree {
 
 func c11Random(rng *rand.Rand, depth int) *c11Tree {
 	leaf := func() *c11Tree {
-		switch rng.Intn(9) {
+		switch rng.Intn(10) {
+		case 9:
+			return &c11Tree{kind: "JM", a: rng.Intn(20), kids: []*c11Tree{c11Leaf([]string{"N", "J", "W"}[rng.Intn(3)], rng.Intn(9))}}
 		case 4:
 			return c11Leaf("H", rng.Intn(9))
 		case 0, 5:
@@ -737,6 +768,35 @@ func c11Gen(tier string, rng *rand.Rand, emit func(string)) map[string]interface
 		emit(api(count) + t.String() + ": " + script)
 		count++
 	}
+	// values that are themselves MonadIO objects (interface{} constructors): Just(obj) yields the object, runs nothing of it;
+	// a continuation receives the object; ObserveOn on Just(obj) configures the new value, not obj
+	monadValued := 0
+	rawI := func(t *c11Tree, script string) {
+		emit("i" + same + " " + t.String() + ": " + script)
+		count++
+		monadValued++
+	}
+	jm := func(id int, x *c11Tree) *c11Tree { return &c11Tree{kind: "JM", a: id, kids: []*c11Tree{x}} }
+	inner := []*c11Tree{c11Leaf("N", 2), c11Leaf("J", 7), {kind: "FL", c: 3, kids: []*c11Tree{c11Leaf("N", 4), c11Leaf("W", 5)}},
+		{kind: "O", h: 1, kids: []*c11Tree{c11Leaf("N", 6)}}, jm(9, c11Leaf("N", 8))}
+	for ii, x := range inner {
+		id := 1 + ii
+		shapes := []*c11Tree{
+			jm(id, x),
+			{kind: "FL", c: 1, kids: []*c11Tree{jm(id, x), c11Leaf("V", 1)}},                                   // Just(obj).FlatMap(f): f gets the object
+			{kind: "FL", c: 1, kids: []*c11Tree{jm(id, x), {kind: "FL", c: 2, kids: []*c11Tree{c11Leaf("N", 1), c11Leaf("V", 0)}}}},
+			{kind: "A", a: 1000 + id, c: 1, kids: []*c11Tree{c11Leaf("V", 1)}},                                    // f(obj code): the other side of left identity
+			{kind: "FL", c: 1, kids: []*c11Tree{c11Leaf("N", 1), jm(id, x)}},                                    // a continuation returns Just(obj)
+			{kind: "FC", c: 2, kids: []*c11Tree{c11Leaf("N", 1), jm(id, x), {kind: "FL", c: 3, kids: []*c11Tree{jm(id+10, x), c11Leaf("W", 2)}}}},
+			{kind: "FR", kids: []*c11Tree{jm(id, x)}},
+			{kind: "S", h: 2, kids: []*c11Tree{{kind: "O", h: 1, kids: []*c11Tree{jm(id, x)}}}},
+		}
+		for _, t := range shapes {
+			for _, sc := range []string{"e ; e", "s", "o1 ; u2 ; s ; e", "y ; e", "z ; b", "D 1 11 V 2 ; D 2 12 W 3 ; r 1 ; e ; r 2 ; e ; r 0 ; e"} {
+				rawI(t, sc)
+			}
+		}
+	}
 	// DAG-shaped: several objects derived from the SAME base object (a FlatMap chain of depth d), used in every order;
 	// each must behave as its own composition, the base must be unchanged
 	dag := 0
@@ -904,7 +964,7 @@ func c11Gen(tier string, rng *rand.Rand, emit func(string)) map[string]interface
 		"exhaustive": false, "directed_law_cases": directed,
 		"exhaustive_scope": fmt.Sprintf("all trees with <= %d nodes over {J3,V1,N1,N2,W3,H4,FR,FL,FC,A,O1,S2} x %d scripts", maxNodes, len(c11Scripts)),
 		"exhaustive_cases": exhaustive, "random_cases": nRandom, "random_max_depth": depth, "random_depth_hist": depthHist,
-		"dag_cases": dag, "dag_max_chain_depth": maxChain, "gated_cases": gated, "emitted": count,
+		"monad_valued_cases": monadValued, "dag_cases": dag, "dag_max_chain_depth": maxChain, "gated_cases": gated, "emitted": count,
 	}
 }
 
